@@ -154,11 +154,12 @@ func GenInner(rng *mrand.Rand, o Opts) *tlswire.ClientHello {
 	if !o.NoALPN {
 		exts = append(exts, tlswire.ALPN(o.InnerALPN))
 	}
+	// A conforming client offers TLS 1.3 and nothing below it in the inner hello (draft-ietf-tls-esni 6.1: "MUST NOT
+	// offer to negotiate TLS 1.2 or below"), and a server may - by 7.1 must - refuse an inner hello that does: a VALID
+	// offer therefore lists 0x0304, possibly with GREASE values, and nothing else.
 	vers := []uint16{0x0304}
 	if !o.StrictPeer {
-		if rng.IntN(2) == 0 {
-			vers = append(vers, 0x0303)
-		}
+		rng.IntN(2) // (the draw that used to add 0x0303: kept so that the other draws stay as they were)
 		if rng.IntN(3) == 0 {
 			vers = append([]uint16{greaseVals[rng.IntN(16)]}, vers...)
 		}
